@@ -3,6 +3,7 @@ import Orx.IW.Completed
 import Orx.IW.Weak
 import Orx.Generated.Orderings
 import Orx.GenThms.ProtoSim
+import Orx.GenThms.Surface
 /-! # C05 The end is permanent: pulling past the end never revives elements -/
 namespace Orx.Props.C05
 open Orx Orx.KS
@@ -92,5 +93,16 @@ theorem source_requests_are_the_translated_functions (k : Nat) :
     (∀ n, 1 ≤ n → GenThms.Proto.reqTree k (.chunk n) = GenThms.Proto.treeAt k (.resv (.chunk n))) ∧
     GenThms.Proto.reqTree k .skip = GenThms.Proto.treeAt k .skp :=
   ⟨GenThms.Proto.reqTree_single k, GenThms.Proto.reqTree_chunk k, GenThms.Proto.reqTree_skip k⟩
+
+section Surface
+open Orx.GenThms.Surface
+
+/-- **nothing but the two consuming iterators, `Taken` and the unwind guard has a destructor**: dropping a buffered iterator, a chunk
+of a non-consuming kind, an adaptor or a view performs no access to the counters — the end, once reported, cannot be undone by a drop -/
+theorem source_dropping_a_buffered_iterator_runs_no_code :
+    sameSet (implsOf "Drop") ["ConIterOfArray", "ConIterOfVec", "Taken", "CompleteOnUnwind"] = true :=
+  Orx.GenThms.Surface.the_destructors
+
+end Surface
 
 end Orx.Props.C05
